@@ -209,18 +209,30 @@ Proof.
   exists rl. split; reflexivity.
 Qed.
 
-(** ---- handle_incoming_connack5: only the allocator, the limit and the alias maximum change *)
+(** ---- handle_incoming_connack5: only the allocator, the limit and the alias maximum change; a
+    refused CONNACK (failure code; receive-maximum 0) changes nothing but the alias maximum *)
+Definition alias_taken5 (s : state5) (tam : option N) : state5 :=
+  match tam with Some t => u_alias_max s t | None => s end.
+
+Lemma alias_taken5_slots s tam : slots_eq5 s (alias_taken5 s tam) /\ s5_events (alias_taken5 s tam) = s5_events s.
+Proof. destruct tam; repeat split. Qed.
+
 Lemma handle_incoming_connack5_eff s code rm tam :
   (code <> 0 /\ handle_incoming_connack5 s code rm tam = Err (s, E5ConnFail code))
-  \/ (code = 0 /\ exists s', handle_incoming_connack5 s code rm tam = Ok (s', None) /\
+  \/ (code = 0 /\ rm = Some 0 /\ handle_incoming_connack5 s code rm tam = Err (alias_taken5 s tam, E5ConnFail 130))
+  \/ (code = 0 /\ rm <> Some 0 /\ exists s', handle_incoming_connack5 s code rm tam = Ok (s', None) /\
       s5_pub s' = s5_pub s /\ s5_rel s' = s5_rel s /\ s5_collision s' = s5_collision s /\
       s5_max_limit s' = s5_max_limit s /\ s5_manual s' = s5_manual s /\ s5_events s' = s5_events s /\
       s5_inflight s' = s5_inflight s /\ s5_incoming s' = s5_incoming s /\
       s5_max s' = match rm with Some m => N.min m (s5_max_limit s) | None => s5_max s end).
 Proof.
-  unfold handle_incoming_connack5. destruct (N.eqb_spec code 0) as [E | E]; cbn [negb]; [right|left; auto].
-  split; [exact E|]. eexists. split; [reflexivity|].
-  destruct tam, rm; sproj5; try destruct (_ <=? _); sproj5; repeat split.
+  unfold handle_incoming_connack5, alias_taken5. destruct (N.eqb_spec code 0) as [E | E]; cbn [negb]; [right|left; auto].
+  destruct rm as [m|].
+  - destruct (N.eqb_spec m 0) as [E0 | E0]; [left; subst; auto|right].
+    split; [exact E|]. split; [congruence|]. eexists. split; [reflexivity|].
+    destruct tam; sproj5; destruct (_ <=? _); sproj5; repeat split.
+  - right. split; [exact E|]. split; [discriminate|]. eexists. split; [reflexivity|].
+    destruct tam; sproj5; repeat split.
 Qed.
 
 (** ---- no op ever changes the configured limit or the manual-ack flag (any state, any op) *)
